@@ -26,7 +26,7 @@ from bv.stacks.covsys import CovSystem, KINDS, INITIAL, INCREMENT, COV_PERIOD, S
 
 PROPERTY = "C16"
 LEVEL = "model_checking"
-BUDGET = {"quick": 95.0, "thorough": 1500.0}
+BUDGET = {"quick": 140.0, "thorough": 1800.0}
 RULE = ("part1: per configuration (object kind(s), logical subscribers = (stack, process id), alphabet) breadth-first over all "
         "timelines of the alphabet {subscribe/re-subscribe(s, confirmed|unconfirmed, lifetime 0|2|5), cancel(s), single "
         "writes (analog: +0.375*increment, +increment, -increment, back to the last reported value, toggle a status flag; "
